@@ -326,4 +326,4 @@ def mx_dir_rule(c: str) -> bool:
 
 def _ws_run(c):
     """known finding C04-F18: patsubst works word by word and re-joins with single blanks"""
-    return '  ' in c
+    return '  ' in c or c.startswith('.dir ')
